@@ -19,8 +19,12 @@ EXTENDS Integers, Sequences, FiniteSets, TLC, Json, IOUtils, SequencesExt
 
 Kinds == {"plain", "oidc"}
 Methods == {"client_secret_basic", "client_secret_post", "none", "private_key_jwt", "client_secret_jwt"}
-Regs == { [kind |-> "plain", method |-> "-", public |-> p, rotated |-> r] : p \in BOOLEAN, r \in {0, 2} }
-        \cup { [kind |-> "oidc", method |-> m, public |-> p, rotated |-> r] : m \in Methods, p \in BOOLEAN, r \in {0, 2} }
+(* nosecret: a confidential registration without any stored secret hash (a private_key_jwt-only client, a client
+   whose secret was never set): no secret whatsoever -- not even an empty one -- authenticates it *)
+Regs == { [kind |-> "plain", method |-> "-", public |-> p, rotated |-> r, nosecret |-> FALSE] : p \in BOOLEAN, r \in {0, 2} }
+        \cup { [kind |-> "oidc", method |-> m, public |-> p, rotated |-> r, nosecret |-> FALSE] : m \in Methods, p \in BOOLEAN, r \in {0, 2} }
+        \cup { [kind |-> "plain", method |-> "-", public |-> FALSE, rotated |-> 0, nosecret |-> TRUE] }
+        \cup { [kind |-> "oidc", method |-> m, public |-> FALSE, rotated |-> 0, nosecret |-> TRUE] : m \in Methods }
 Transports == {"basic", "body", "both", "neither", "basic_undecodable", "basic_id_only", "body_id_only"}
 Secrets == {"current", "rotated", "wrong", "empty", "other_client"}
 Endpoints == {"token:client_credentials", "token:password", "token:refresh_token", "revoke", "par", "device_auth"}
@@ -32,7 +36,7 @@ BodySecret(t, sr) == t \in {"body", "both"} /\ SecretSent(sr)
 HasBasic(t) == t \in {"basic", "both", "basic_undecodable", "basic_id_only"}
 (* the device authorization endpoint always carries client_id in the body (it compares it) *)
 BodyID(t, ep) == t \in {"body", "both", "body_id_only"} \/ ep = "device_auth"
-SecretOK(reg, sr) == sr = "current" \/ (sr = "rotated" /\ reg.rotated > 0)
+SecretOK(reg, sr) == ~reg.nosecret /\ (sr = "current" \/ (sr = "rotated" /\ reg.rotated > 0))
 
 Auth(reg, t, sr, known, ep) ==
   IF t = "basic_undecodable" THEN "invalid_request"
@@ -62,6 +66,7 @@ ValidRows == { r \in Rows : (r.transport \in {"neither", "basic_undecodable", "b
 ASSUME \A r \in ValidRows : (r.auth = "ok" /\ ~r.reg.public) => r.secret \in {"current", "rotated"}      \* a confidential client proves a secret
 ASSUME \A r \in ValidRows : (r.endpoint = "token:client_credentials" /\ r.reg.public) => r.outcome # "ok"
 ASSUME \A r \in ValidRows : r.secret \in {"wrong", "other_client"} => (r.auth = "ok" => r.reg.public)
+ASSUME \A r \in ValidRows : r.reg.nosecret => r.auth # "ok"
 ASSUME PrintT(<<"ROWS", Cardinality(ValidRows)>>)
 ASSUME JsonSerialize(IOEnv.VERIF_TABLE_CLIENTAUTH, SetToSeq(ValidRows))
 
